@@ -26,8 +26,27 @@ CHECKS = {
           "(rings and lines of 6-7 bases quick, 5-9 thorough) plus seeded random inputs on longer records."),
     design="6/C04", technique="TLA+ spec (Ring.tla) + TLC model checking + TLC trace validation of real calls",
     note=TRUSTED + "Exhaustive only up to the stated record lengths; fuzzy positions outside the model."),
-}
 
+ "C08": dict(
+    text=("Genes.tla states lookup membership as set-of-bases containment / overlap and location order as a relation; TLC "
+          "checks the oracle's meta-properties (rotation freedom, a sorted result satisfies the relation) and, as a negative "
+          "control, that the bisect-and-early-exit shape misses shadowed genes; every layout of up to 3 genes over all simple and "
+          "origin-spanning arcs of small records (4 genes and longer records sampled), in random insertion orders, is queried "
+          "with every arc with and without with_overlapping through Record.get_cds_features_within_location and Genes_Trace "
+          "(TLC) decides every result. Area membership / build-order independence is decided by the RecordSM machinery (C06)."),
+    design="6/C08", technique="TLA+ spec (Genes.tla) + TLC model checking + TLC trace validation of real lookups",
+    note=TRUSTED + "Exhaustive for <= 3 genes on records of 6 (quick) / 7 (thorough) bases, sampled beyond."),
+ "C03": dict(
+    text=("Detect.tla states protocluster formation declaratively on top of RuleAst/Ring: anchors, maximal cutoff-chains, core = "
+          "connect-relation of the chain (plus reachable EXTENDERS genes), extent = extend-relation, SUPERIORS as a must/must-not "
+          "sandwich, suppliers sandwich; TLC checks that a constructive reference satisfies the relation, that anchors partition "
+          "into chains, and order/rotation freedom of the oracle; rulesets of 1-3 TLC-enumerated rules x layouts of 2-4 "
+          "TLC-enumerated gene locations x hit tables (plus larger random records) run through the real "
+          "detect_protoclusters_and_signatures with dynamic profiles, at two scales; Detect_Trace (TLC) decides every result."),
+    design="6/C03", technique="TLA+ spec (Detect.tla) + TLC model checking + TLC trace validation of the detection pipeline",
+    note=TRUSTED + "Layouts/rulesets are seeded samples over TLC-enumerated catalogues (not exhaustive); hits enter as data."),
+}
+CHECKS_END = None
 NOT_BUILT = "not built yet (work in progress, see DESIGN.md section 10 build order)"
 NA = {}
 
